@@ -1,3 +1,424 @@
-import Kurbo.Solve
+import Proofs.Lemmas.C15Quad
+import Proofs.Lemmas.C15Cubic
+import Proofs.Lemmas.C15Real
+import Proofs.Lemmas.C15Itp
+import Proofs.Lemmas.C15ItpReal
+/-! C15 – polynomial solvers.
+
+    "For every quadratic, cubic and quartic with finite coefficients, each returned value is a root, no more values
+    are returned than the degree, and every real root that is separated from the others is returned once.  A
+    vanishing leading coefficient gives the roots of the lower-degree polynomial, and the bracketing solver returns
+    a point within epsilon of the sign change of a monotone function."
+
+    All theorems are about the hand-written model `Kurbo/Solve.lean` (`solveQuadratic`, `solveCubic`,
+    `solveQuarticWith`, `itpStep`, `itpLoop`, `solveItp`) exactly as it is, read in exact arithmetic: in a lawful
+    scalar `Scalar.fin x = true` and `Scalar.finQuot d r = decide (d ≠ 0)`, i.e. "not finite" means "divisor = 0".
+
+    What is proved.
+
+    A. Quadratic (any lawful scalar `K`; the only fact about the uninterpreted `Scalar.sqrt` that is used is
+       `SqrtExact` – non-negative and squaring back – at the ONE discriminant `quadArg c0 c1 c2 = (c1/c2)² − 4·c0/c2`
+       the call computes, and only when that discriminant is positive; so the theorem also applies to `Rat` inputs
+       with a rational square root).
+       * `solveQuadratic_spec_quadratic` (`c2 ≠ 0`): the list is exactly the set of roots, strictly increasing
+         (hence without repetition; a double root is returned once), length ≤ 2.  Reachable branches in a lawful
+         field: `arg < 0` ↦ `[]`, `arg = 0` ↦ one value, `arg > 0` ↦ two values; `root1 ≠ 0` is PROVED there (so the
+         `[root1]` fallback and the `!fin arg` branch are unreachable in exact arithmetic).
+       * `solveQuadratic_linear`, `solveQuadratic_all_zero`, `solveQuadratic_const`: `c2 = 0` gives `[−c0/c1]`,
+         `[0]` (all coefficients zero), `[]`.
+       * `solveQuadratic_spec`: unless all three coefficients vanish: exactly the roots, strictly increasing.
+       * `solveQuadratic_spec_real`: the same over ℝ under `LawfulReal` without any hypothesis on `sqrt`.
+       * `solveQuadratic_length_le`: length ≤ 2 for EVERY `Scalar` (also `Float`; structural).
+    B. Cubic.
+       * `solveCubic_of_c3_zero` (lawful `K`): `c3 = 0` ↦ `solveQuadratic c0 c1 c2`.
+       * `solveCubic_length_le`: length ≤ 3 for every `Scalar` (structural).
+       * over ℝ with `LawfulReal` (`Scalar.sqrt/cbrt/sin/cos/atan2` are `Real.sqrt`, the sign-aware real cube root,
+         `Real.sin`, `Real.cos`, `Complex.arg ⟨x, y⟩`) and `c3 ≠ 0`:
+         `solveCubic_sound` – every returned value is a root, in all three discriminant branches (Cardano `d < 0`,
+         double root `d = 0`, trigonometric `d > 0`); `solveCubic_complete` – EVERY real root is returned (all three
+         branches: for `d < 0` the cubic has one real root, for `d = 0` the roots are `t1` (double) and `−2·t1`, for
+         `d > 0` the three returned values are pairwise distinct); `solveCubic_mem_iff` combines both;
+         `solveCubic_nodup` – no value is returned twice unless the cubic has a triple root
+         (hypothesis: discriminant ≠ 0 or `c2² ≠ 3·c1·c3`); `solveCubic_length_of_disc` – 3 / 2 / 1 values according
+         to the sign of the discriminant.  In the `d = 0` branch `d0 ≤ 0` is DERIVED from `d = 0`
+         (`de² = −4·d0³`), so `√(−d0)` is never the square root of a negative number there.
+    C. Quartic reductions (`solveQuarticWith inner`, the LDLᵀ part is the parameter `inner`).
+       * `solveQuarticWith_reduce` (lawful `K`) – the three cases in one statement; separately:
+       * `solveQuarticWith_c4_zero` (lawful `K`): `c4 = 0` ↦ `solveCubic c0 c1 c2 c3`.
+       * `solveQuarticWith_c0_zero` (lawful `K`): `c4 ≠ 0`, `c0 = 0` ↦ `solveCubic c1 c2 c3 c4 ++ [0]`.
+       * `solveQuarticWith_c0_zero_mem_iff` (ℝ): in that case the result is exactly the set of roots of the quartic
+         (`0` included); `solveQuarticWith_reduce_length_le` (lawful `K`): at most 4 values in both
+         reductions.
+    D. ITP (any lawful `K`, arbitrary `f : K → K`, no continuity needed).
+       * `itpStep_bracket`: from the invariant `ItpInv` (`a ≤ b`, `ya = f a < 0 < f b = yb`, `0 ≤ scaled_epsilon`) and
+         `0 ≤ k1`, a step either returns `x ∈ [a, b]` with `f x = 0`, or a state that satisfies the invariant again,
+         whose bracket is contained in the old one, whose `scaled_epsilon` is halved, and whose width is at most
+         `2·scaled_epsilon'` if the old width was at most `2·scaled_epsilon` (i.e. `r ≥ 0`: the ITP projection).
+         `xitp ∈ [a, b]` holds WITHOUT `r ≤ (b−a)/2`: `xt` lies between the regula-falsi point and the midpoint, and
+         the projection `x½ ∓ |r|` is only taken when `r < |xt − x½| ≤ (b−a)/2` or `r < 0 ≤ scaled_epsilon`.
+       * `itpLoop_done` (narrow bracket ↦ midpoint), `itpLoop_result_in_bracket` (any fuel),
+         `itpLoop_spec` (with `scaled_epsilon = ε·2ⁿ`, width ≤ `2·scaled_epsilon`, fuel > n: the loop never runs out of
+         fuel and the result is an `ItpResult`: it lies in a sub-bracket `[a′, b′]` with `f a′ < 0 < f b′`, and is an
+         exact zero of `f` or the midpoint of a sub-bracket of width ≤ 2ε).
+       * `itp_iterations`: under the same hypotheses fuel beyond `n + 1` is never used.
+       * `solveItp_in_bracket`, `solveItp_spec`, `solveItp_monotone` (monotone `f`, any zero `z` of `f` in `[a,b]`:
+         `f x = 0 ∨ |x − z| ≤ ε`), `solveItp_strictMono` (`|x − z| ≤ ε`).
+       * over ℝ: `solveItp_spec_real` (continuous `f`: the result is within ε of a zero of `f`, by the intermediate
+         value theorem on the final sub-bracket), `solveItp_monotone_real`.
+
+    What is NOT proved.
+    * Nothing about `Float`: overflow of a quotient with a non-zero divisor ("negligible leading coefficient") is
+      invisible to a lawful scalar, where `1e-16` is simply a non-zero coefficient (DESIGN.md finding 5.f).
+    * The general quartic (`solve_quartic_inner`, LDLᵀ factorisation, rescaling, Newton polishing) is not transcribed;
+      `solveQuarticWith` takes it as the parameter `inner`, and no statement is made about `inner`.
+    * The cubic theorems are for ℝ only (they need `sqrt`, `cbrt`, `sin`, `cos`, `atan2`); the returned list of
+      `solveCubic` is not sorted (kurbo does not sort it) and, for a triple root, contains the root twice.
+    * `solveItp_spec` assumes `b − a ≤ 2·ε·2^nmax` for the `nmax` the model computes (`itpNmax`); this is what the
+      law of `log2`/`ceil`/`as usize` would give (`Scalar.log2`, `Scalar.toUSize` are uninterpreted in `LawfulScalar`);
+      without it only `solveItp_in_bracket` is available.  The classical ITP bound "at most `nmax` iterations" is
+      `itp_iterations` under the same hypothesis.  Over ℝ with the laws `LawfulRealLog` of `log2` and `as usize` the
+      hypothesis is PROVED (`solveItp_budget_real`) and `solveItp_spec_real` / `solveItp_monotone_real` need none.
+    Helper lemmas: `Proofs/Lemmas/C15Quad.lean`, `C15Cubic.lean`, `C15Real.lean`, `C15Itp.lean`, `C15ItpReal.lean`. -/
+set_option linter.unusedSectionVars false
+
+/-! ## lengths: structural, every `Scalar` -/
 namespace Kurbo
+section structural
+variable {K : Type} [Scalar K]
+
+/-- every `Scalar`, also `Float` -/
+theorem solveQuadratic_length_le (c0 c1 c2 : K) : (solveQuadratic c0 c1 c2).length ≤ 2 :=
+  solveQuadratic_length_le' c0 c1 c2
+
+/-- every `Scalar`, also `Float` -/
+theorem solveCubic_length_le (c0 c1 c2 c3 : K) : (solveCubic c0 c1 c2 c3).length ≤ 3 :=
+  solveCubic_length_le' c0 c1 c2 c3
+end structural
+
+/-! ## A. quadratic -/
+variable {K : Type} [Field K] [LinearOrder K] [IsStrictOrderedRing K] [FloorRing K] [Scalar K] [LawfulScalar K]
+
+theorem solveQuadratic_spec_quadratic (c0 c1 c2 : K) (h2 : c2 ≠ 0)
+    (hs : 0 < quadArg c0 c1 c2 → SqrtExact (quadArg c0 c1 c2)) :
+    (∀ x, x ∈ solveQuadratic c0 c1 c2 ↔ c0 + c1 * x + c2 * x ^ 2 = 0) ∧
+    (solveQuadratic c0 c1 c2).Pairwise (· < ·) ∧ (solveQuadratic c0 c1 c2).length ≤ 2 :=
+  solveQuadratic_quadratic c0 c1 c2 h2 hs
+
+-- the hypotheses are satisfiable over `Rat` (x² − 3x + 2, discriminant 1), and the model runs there
+example : (1 : Rat) ≠ 0 ∧ (0 < quadArg (2 : Rat) (-3) 1 → SqrtExact (quadArg (2 : Rat) (-3) 1)) :=
+  ⟨by norm_num, fun _ => by unfold SqrtExact quadArg; decide +kernel⟩
+example : solveQuadratic (K := Rat) 2 (-3) 1 = [1, 2] := by decide +kernel
+example : solveQuadratic (K := Rat) 1 (-2) 1 = [1] := by decide +kernel      -- double root, once
+example : solveQuadratic (K := Rat) 1 0 1 = [] := by decide +kernel
+example : solveQuadratic (K := Rat) 0 (-1) 1 = [0, 1] := by decide +kernel   -- sc0 = 0: root2 = 0/root1
+
+theorem solveQuadratic_linear (c0 c1 : K) (h1 : c1 ≠ 0) :
+    solveQuadratic c0 c1 0 = [-c0 / c1] ∧ ∀ x, x ∈ solveQuadratic c0 c1 0 ↔ c0 + c1 * x + 0 * x ^ 2 = 0 := by
+  rw [solveQuadratic_linear_eq c0 c1 h1]
+  refine ⟨rfl, fun x => ?_⟩
+  simp only [List.mem_singleton]
+  constructor
+  · rintro rfl; field_simp; ring
+  · intro h; field_simp; linear_combination h
+example : solveQuadratic (K := Rat) 3 (-2) 0 = [3 / 2] := by decide +kernel
+
+theorem solveQuadratic_all_zero : solveQuadratic (0 : K) 0 0 = [0] := by
+  rw [solveQuadratic_zero]; simp
+
+theorem solveQuadratic_const (c0 : K) (h0 : c0 ≠ 0) : solveQuadratic c0 0 0 = [] := by
+  rw [solveQuadratic_zero]; simp [h0]
+example : solveQuadratic (K := Rat) 5 0 0 = [] := by decide +kernel
+
+/-- unless the polynomial is identically zero: exactly the real roots, strictly increasing -/
+theorem solveQuadratic_spec (c0 c1 c2 : K) (h : ¬ (c0 = 0 ∧ c1 = 0 ∧ c2 = 0))
+    (hs : c2 ≠ 0 → 0 < quadArg c0 c1 c2 → SqrtExact (quadArg c0 c1 c2)) :
+    (∀ x, x ∈ solveQuadratic c0 c1 c2 ↔ c0 + c1 * x + c2 * x ^ 2 = 0) ∧
+    (solveQuadratic c0 c1 c2).Pairwise (· < ·) := by
+  by_cases h2 : c2 = 0
+  · subst h2
+    by_cases h1 : c1 = 0
+    · subst h1
+      have h0 : c0 ≠ 0 := fun h0 => h ⟨h0, rfl, rfl⟩
+      rw [solveQuadratic_const c0 h0]
+      refine ⟨fun x => ?_, List.Pairwise.nil⟩
+      simp [h0]
+    · obtain ⟨e, hiff⟩ := solveQuadratic_linear c0 c1 h1
+      refine ⟨hiff, ?_⟩
+      rw [e]; exact List.pairwise_singleton _ _
+  · obtain ⟨h1, h2', -⟩ := solveQuadratic_quadratic c0 c1 c2 h2 (hs h2)
+    exact ⟨h1, h2'⟩
+example : ¬ ((2 : Rat) = 0 ∧ (-3 : Rat) = 0 ∧ (1 : Rat) = 0) := by norm_num
+
+end Kurbo
+
+namespace Kurbo
+section real
+variable [Scalar ℝ] [LawfulScalar ℝ] [LawfulReal]
+
+theorem sqrtExact_real (a : ℝ) (h : 0 ≤ a) : SqrtExact a := by
+  unfold SqrtExact; rw [LawfulReal.sqrt_eq]
+  exact ⟨Real.sqrt_nonneg a, Real.mul_self_sqrt h⟩
+
+theorem solveQuadratic_spec_real (c0 c1 c2 : ℝ) (h : ¬ (c0 = 0 ∧ c1 = 0 ∧ c2 = 0)) :
+    (∀ x, x ∈ solveQuadratic c0 c1 c2 ↔ c0 + c1 * x + c2 * x ^ 2 = 0) ∧
+    (solveQuadratic c0 c1 c2).Pairwise (· < ·) ∧ (solveQuadratic c0 c1 c2).length ≤ 2 :=
+  ⟨(solveQuadratic_spec c0 c1 c2 h (fun _ hd => sqrtExact_real _ hd.le)).1,
+   (solveQuadratic_spec c0 c1 c2 h (fun _ hd => sqrtExact_real _ hd.le)).2,
+   solveQuadratic_length_le c0 c1 c2⟩
+
+end real
+
+-- the class assumptions of the ℝ theorems are satisfiable: ℝ with Mathlib's functions
+example : @LawfulScalar ℝ _ _ _ _ realScalar ∧ @LawfulReal realScalar := ⟨realScalar_lawful, realScalar_lawfulReal⟩
+example : ¬ ((-2 : ℝ) = 0 ∧ (0 : ℝ) = 0 ∧ (1 : ℝ) = 0) := by norm_num   -- x² − 2: irrational roots
+end Kurbo
+
+/-! ## B. cubic -/
+namespace Kurbo
+section lawful
+variable {K : Type} [Field K] [LinearOrder K] [IsStrictOrderedRing K] [FloorRing K] [Scalar K] [LawfulScalar K]
+
+theorem solveCubic_of_c3_zero (c0 c1 c2 : K) : solveCubic c0 c1 c2 0 = solveQuadratic c0 c1 c2 :=
+  solveCubic_c3_zero c0 c1 c2
+example : solveCubic (K := Rat) 2 (-3) 1 0 = [1, 2] := by decide +kernel
+end lawful
+
+section real
+variable [Scalar ℝ] [LawfulScalar ℝ] [LawfulReal]
+
+/-- exactly the real roots (soundness and completeness in one statement) -/
+theorem solveCubic_mem_iff (c0 c1 c2 c3 : ℝ) (h3 : c3 ≠ 0) (x : ℝ) :
+    x ∈ solveCubic c0 c1 c2 c3 ↔ c0 + c1 * x + c2 * x ^ 2 + c3 * x ^ 3 = 0 := by
+  rw [solveCubic_eq_core c0 c1 c2 c3 h3, cubicCore_mem_iff, cubic_eq_scaled c0 c1 c2 c3 x h3, mul_eq_zero,
+    or_iff_right h3]
+
+theorem solveCubic_sound (c0 c1 c2 c3 : ℝ) (h3 : c3 ≠ 0) :
+    ∀ x ∈ solveCubic c0 c1 c2 c3, c0 + c1 * x + c2 * x ^ 2 + c3 * x ^ 3 = 0 :=
+  fun x hx => (solveCubic_mem_iff c0 c1 c2 c3 h3 x).mp hx
+
+/-- every real root is returned – whatever the discriminant -/
+theorem solveCubic_complete (c0 c1 c2 c3 : ℝ) (h3 : c3 ≠ 0) :
+    ∀ x, c0 + c1 * x + c2 * x ^ 2 + c3 * x ^ 3 = 0 → x ∈ solveCubic c0 c1 c2 c3 :=
+  fun x hx => (solveCubic_mem_iff c0 c1 c2 c3 h3 x).mpr hx
+
+/-- each root is returned once, unless the cubic is `c3·(x − r)³` -/
+theorem solveCubic_nodup (c0 c1 c2 c3 : ℝ) (h3 : c3 ≠ 0)
+    (h : cubicDisc c0 c1 c2 c3 ≠ 0 ∨ c2 ^ 2 ≠ 3 * c1 * c3) : (solveCubic c0 c1 c2 c3).Nodup := by
+  rw [solveCubic_eq_core c0 c1 c2 c3 h3]
+  apply cubicCore_nodup
+  rw [cubD_scaled c0 c1 c2 c3 h3, cubD0_scaled c1 c2 c3 h3]
+  have h27 : (27 * c3 ^ 4 : ℝ) ≠ 0 := by positivity
+  have h9 : (9 * c3 ^ 2 : ℝ) ≠ 0 := by positivity
+  rcases h with h | h
+  · left; exact div_ne_zero h h27
+  · right; apply div_ne_zero _ h9
+    intro h0; apply h; linear_combination (-1 : ℝ) * h0
+
+/-- three values for positive discriminant, two for zero discriminant, one for negative discriminant -/
+theorem solveCubic_length_of_disc (c0 c1 c2 c3 : ℝ) (h3 : c3 ≠ 0) :
+    (0 < cubicDisc c0 c1 c2 c3 → (solveCubic c0 c1 c2 c3).length = 3) ∧
+    (cubicDisc c0 c1 c2 c3 = 0 → (solveCubic c0 c1 c2 c3).length = 2) ∧
+    (cubicDisc c0 c1 c2 c3 < 0 → (solveCubic c0 c1 c2 c3).length = 1) := by
+  rw [solveCubic_eq_core c0 c1 c2 c3 h3]
+  unfold cubicCore
+  rw [cubD_scaled c0 c1 c2 c3 h3]
+  have h27 : (0 : ℝ) < 27 * c3 ^ 4 := by positivity
+  refine ⟨fun h => ?_, fun h => ?_, fun h => ?_⟩
+  · have hd : 0 < cubicDisc c0 c1 c2 c3 / (27 * c3 ^ 4) := div_pos h h27
+    rw [if_neg (not_lt.mpr hd.le), if_neg (ne_of_gt hd)]; rfl
+  · rw [h, zero_div, if_neg (lt_irrefl _), if_pos rfl]; rfl
+  · have hd : cubicDisc c0 c1 c2 c3 / (27 * c3 ^ 4) < 0 := div_neg_of_neg_of_pos h h27
+    rw [if_pos hd]; rfl
+
+end real
+
+-- hypotheses of the cubic theorems on concrete inputs: x³ − 6x² + 11x − 6 (roots 1,2,3; discriminant 4),
+-- x³ − 3x + 2 = (x−1)²(x+2) (discriminant 0, not a triple root), x³ + x + 1 (discriminant −31)
+example : (1 : ℝ) ≠ 0 ∧ cubicDisc (-6 : ℝ) 11 (-6) 1 = 4 := by unfold cubicDisc; norm_num
+example : cubicDisc (2 : ℝ) (-3) 0 1 = 0 ∧ (0 : ℝ) ^ 2 ≠ 3 * (-3) * 1 := by unfold cubicDisc; norm_num
+example : cubicDisc (1 : ℝ) 1 0 1 = -31 := by unfold cubicDisc; norm_num
+-- the double-root branch needs `sqrt` only and runs over `Rat`: (x−1)²(x+2)
+example : solveCubic (K := Rat) 2 (-3) 0 1 = [1, -2] := by decide +kernel
+end Kurbo
+
+/-! ## C. quartic reductions -/
+namespace Kurbo
+section lawful
+variable {K : Type} [Field K] [LinearOrder K] [IsStrictOrderedRing K] [FloorRing K] [Scalar K] [LawfulScalar K]
+
+theorem solveQuarticWith_c4_zero (inner : K → K → K → K → K → List K) (c0 c1 c2 c3 : K) :
+    solveQuarticWith inner c0 c1 c2 c3 0 = solveCubic c0 c1 c2 c3 := by
+  unfold solveQuarticWith
+  simp only [scalar_norm]
+  simp
+
+theorem solveQuarticWith_c0_zero (inner : K → K → K → K → K → List K) (c1 c2 c3 c4 : K) (h4 : c4 ≠ 0) :
+    solveQuarticWith inner 0 c1 c2 c3 c4 = solveCubic c1 c2 c3 c4 ++ [0] := by
+  unfold solveQuarticWith
+  simp only [scalar_norm]
+  simp [h4]
+
+/-- both reductions at the head of `solve_quartic` in one statement -/
+theorem solveQuarticWith_reduce (inner : K → K → K → K → K → List K) (c0 c1 c2 c3 c4 : K) :
+    (c4 = 0 → solveQuarticWith inner c0 c1 c2 c3 c4 = solveCubic c0 c1 c2 c3) ∧
+    (c4 ≠ 0 → c0 = 0 → solveQuarticWith inner c0 c1 c2 c3 c4 = solveCubic c1 c2 c3 c4 ++ [0]) ∧
+    (c4 ≠ 0 → c0 ≠ 0 → solveQuarticWith inner c0 c1 c2 c3 c4 = inner c0 c1 c2 c3 c4) := by
+  refine ⟨fun h => ?_, fun h4 h0 => ?_, fun h4 h0 => ?_⟩
+  · subst h; exact solveQuarticWith_c4_zero inner c0 c1 c2 c3
+  · subst h0; exact solveQuarticWith_c0_zero inner c1 c2 c3 c4 h4
+  · unfold solveQuarticWith
+    simp only [scalar_norm]
+    simp [h4, h0]
+
+theorem solveQuarticWith_general (inner : K → K → K → K → K → List K) (c0 c1 c2 c3 c4 : K) (h4 : c4 ≠ 0)
+    (h0 : c0 ≠ 0) : solveQuarticWith inner c0 c1 c2 c3 c4 = inner c0 c1 c2 c3 c4 := by
+  unfold solveQuarticWith
+  simp only [scalar_norm]
+  simp [h4, h0]
+
+theorem solveQuarticWith_reduce_length_le (inner : K → K → K → K → K → List K) (c0 c1 c2 c3 c4 : K)
+    (h : c4 = 0 ∨ c0 = 0) : (solveQuarticWith inner c0 c1 c2 c3 c4).length ≤ 4 := by
+  by_cases h4 : c4 = 0
+  · subst h4; rw [solveQuarticWith_c4_zero]
+    exact (solveCubic_length_le c0 c1 c2 c3).trans (by norm_num)
+  · have h0 : c0 = 0 := h.resolve_left h4
+    subst h0; rw [solveQuarticWith_c0_zero inner c1 c2 c3 c4 h4, List.length_append]
+    have := solveCubic_length_le c1 c2 c3 c4
+    simp only [List.length_singleton]; omega
+
+example : solveQuarticWith (K := Rat) (fun _ _ _ _ _ => []) 2 (-3) 1 0 0 = [1, 2] := by decide +kernel
+example : solveQuarticWith (K := Rat) (fun _ _ _ _ _ => []) 0 2 (-3) 0 1 = [1, -2, 0] := by decide +kernel
+end lawful
+
+section real
+variable [Scalar ℝ] [LawfulScalar ℝ] [LawfulReal]
+
+/-- `c0 = 0`, `c4 ≠ 0`: exactly the real roots of the quartic, `0` included -/
+theorem solveQuarticWith_c0_zero_mem_iff (inner : ℝ → ℝ → ℝ → ℝ → ℝ → List ℝ) (c1 c2 c3 c4 : ℝ) (h4 : c4 ≠ 0)
+    (x : ℝ) :
+    x ∈ solveQuarticWith inner 0 c1 c2 c3 c4 ↔ 0 + c1 * x + c2 * x ^ 2 + c3 * x ^ 3 + c4 * x ^ 4 = 0 := by
+  rw [solveQuarticWith_c0_zero inner c1 c2 c3 c4 h4, List.mem_append, solveCubic_mem_iff c1 c2 c3 c4 h4,
+    List.mem_singleton]
+  have e : 0 + c1 * x + c2 * x ^ 2 + c3 * x ^ 3 + c4 * x ^ 4 = x * (c1 + c2 * x + c3 * x ^ 2 + c4 * x ^ 3) := by ring
+  rw [e, mul_eq_zero]
+  exact or_comm
+
+/-- `c4 = 0`, `c3 ≠ 0`: exactly the real roots of the cubic -/
+theorem solveQuarticWith_c4_zero_mem_iff (inner : ℝ → ℝ → ℝ → ℝ → ℝ → List ℝ) (c0 c1 c2 c3 : ℝ) (h3 : c3 ≠ 0)
+    (x : ℝ) :
+    x ∈ solveQuarticWith inner c0 c1 c2 c3 0 ↔ c0 + c1 * x + c2 * x ^ 2 + c3 * x ^ 3 + 0 * x ^ 4 = 0 := by
+  rw [solveQuarticWith_c4_zero, solveCubic_mem_iff c0 c1 c2 c3 h3]
+  simp
+end real
+end Kurbo
+
+/-! ## D. ITP -/
+namespace Kurbo
+variable {K : Type} [Field K] [LinearOrder K] [IsStrictOrderedRing K] [FloorRing K] [Scalar K] [LawfulScalar K]
+
+theorem itpStep_bracket (f : K → K) (ε k1 : K) (st : ItpSt K) (hk : 0 ≤ k1) (hI : ItpInv f st) :
+    match itpStep f ε k1 st with
+    | .inl x => st.a ≤ x ∧ x ≤ st.b ∧ f x = 0
+    | .inr st' => ItpInv f st' ∧ st.a ≤ st'.a ∧ st'.b ≤ st.b ∧ st'.scaled_epsilon = st.scaled_epsilon * (1 / 2) ∧
+        (st.b - st.a ≤ 2 * st.scaled_epsilon → st'.b - st'.a ≤ 2 * st'.scaled_epsilon) :=
+  itpStep_spec f ε k1 st hk hI
+
+-- the invariant is satisfiable: f x = x − 1/3 on [0, 1]
+example : ItpInv (fun x : Rat => x - 1 / 3) ⟨0, 1, -1 / 3, 2 / 3, 1 / 50⟩ :=
+  ⟨by norm_num, by norm_num, by norm_num, by norm_num, by norm_num, by norm_num⟩
+
+theorem itpLoop_done (f : K → K) (ε k1 : K) (fuel : Nat) (st : ItpSt K) (h : st.b - st.a ≤ 2 * ε) :
+    itpLoop f ε k1 fuel st = 1 / 2 * (st.a + st.b) :=
+  itpLoop_done' f ε k1 fuel st h
+
+theorem itpLoop_result_in_bracket (f : K → K) (ε k1 : K) (hk : 0 ≤ k1) (fuel : Nat) (st : ItpSt K)
+    (hI : ItpInv f st) : st.a ≤ itpLoop f ε k1 fuel st ∧ itpLoop f ε k1 fuel st ≤ st.b :=
+  itpLoop_mem' f ε k1 hk fuel st hI
+
+theorem itpLoop_spec (f : K → K) (ε k1 : K) (hk : 0 ≤ k1) (fuel n : Nat) (st : ItpSt K) (hI : ItpInv f st)
+    (hse : st.scaled_epsilon = ε * 2 ^ n) (hw : st.b - st.a ≤ 2 * st.scaled_epsilon) (hn : n < fuel) :
+    ItpResult f ε st.a st.b (itpLoop f ε k1 fuel st) :=
+  itpLoop_spec' f ε k1 hk fuel n st hI hse hw hn
+
+/-- `itp_iterations`: under the hypotheses of `itpLoop_spec`, fuel beyond `n + 1` is never used – the loop body runs at
+    most `n` times before `2ε < b − a` fails (`n = nmax` in `solve_itp`, whose fuel is `nmax + 64`) -/
+theorem itp_iterations (f : K → K) (ε k1 : K) (hk : 0 ≤ k1) (fuel n : Nat) (st : ItpSt K) (hI : ItpInv f st)
+    (hse : st.scaled_epsilon = ε * 2 ^ n) (hw : st.b - st.a ≤ 2 * st.scaled_epsilon) (hn : n < fuel) :
+    itpLoop f ε k1 fuel st = itpLoop f ε k1 (n + 1) st :=
+  itpLoop_fuel' f ε k1 hk fuel n st hI hse hw hn
+
+example : (⟨0, 1, -1 / 3, 2 / 3, 1 / 100 * 2 ^ 6⟩ : ItpSt Rat).scaled_epsilon = 1 / 100 * 2 ^ 6 ∧
+    (1 : Rat) - 0 ≤ 2 * (1 / 100 * 2 ^ 6) ∧ 6 < 70 := by norm_num
+
+theorem solveItp_in_bracket (f : K → K) (a b ε : K) (n0 : Nat) (k1 : K) (hab : a ≤ b) (hε : 0 ≤ ε) (hk : 0 ≤ k1)
+    (ha : f a < 0) (hb : 0 < f b) :
+    a ≤ solveItp f a b ε n0 k1 (f a) (f b) ∧ solveItp f a b ε n0 k1 (f a) (f b) ≤ b := by
+  rw [solveItp_eq]
+  have h2 : (0 : K) ≤ 2 ^ itpNmax a b ε n0 := pow_nonneg (by norm_num) _
+  have hI : ItpInv f ⟨a, b, f a, f b, ε * 2 ^ itpNmax a b ε n0⟩ := ⟨hab, rfl, rfl, ha, hb, mul_nonneg hε h2⟩
+  exact itpLoop_mem' f ε k1 hk _ _ hI
+
+/-- the result lies in a sub-bracket `[a′, b′] ⊆ [a, b]` with `f a′ < 0 < f b′` and is an exact zero of `f` or the
+    midpoint of such a sub-bracket of width ≤ 2ε -/
+theorem solveItp_spec (f : K → K) (a b ε : K) (n0 : Nat) (k1 : K) (hab : a ≤ b) (hk : 0 ≤ k1)
+    (ha : f a < 0) (hb : 0 < f b) (hn : b - a ≤ 2 * (ε * 2 ^ itpNmax a b ε n0)) :
+    ItpResult f ε a b (solveItp f a b ε n0 k1 (f a) (f b)) := by
+  rw [solveItp_eq]
+  have hse : 0 ≤ ε * 2 ^ itpNmax a b ε n0 := by linarith
+  have hI : ItpInv f ⟨a, b, f a, f b, ε * 2 ^ itpNmax a b ε n0⟩ := ⟨hab, rfl, rfl, ha, hb, hse⟩
+  exact itpLoop_spec' f ε k1 hk (itpNmax a b ε n0 + 64) (itpNmax a b ε n0) _ hI rfl hn
+    (Nat.lt_add_of_pos_right (by norm_num))
+
+/-- within ε of every zero of a monotone function (or itself an exact zero) -/
+theorem solveItp_monotone (f : K → K) (a b ε : K) (n0 : Nat) (k1 : K) (hab : a ≤ b) (hk : 0 ≤ k1)
+    (ha : f a < 0) (hb : 0 < f b) (hn : b - a ≤ 2 * (ε * 2 ^ itpNmax a b ε n0))
+    (hf : MonotoneOn f (Set.Icc a b)) (z : K) (hz : z ∈ Set.Icc a b) (hfz : f z = 0) :
+    f (solveItp f a b ε n0 k1 (f a) (f b)) = 0 ∨ |solveItp f a b ε n0 k1 (f a) (f b) - z| ≤ ε :=
+  (solveItp_spec f a b ε n0 k1 hab hk ha hb hn).near_zero hf hz hfz
+
+/-- within ε of the zero of a strictly monotone function -/
+theorem solveItp_strictMono (f : K → K) (a b ε : K) (n0 : Nat) (k1 : K) (hab : a ≤ b) (hε : 0 ≤ ε) (hk : 0 ≤ k1)
+    (ha : f a < 0) (hb : 0 < f b) (hn : b - a ≤ 2 * (ε * 2 ^ itpNmax a b ε n0))
+    (hf : StrictMonoOn f (Set.Icc a b)) (z : K) (hz : z ∈ Set.Icc a b) (hfz : f z = 0) :
+    |solveItp f a b ε n0 k1 (f a) (f b) - z| ≤ ε :=
+  (solveItp_spec f a b ε n0 k1 hab hk ha hb hn).near_zero_strict hε hf hz hfz
+
+-- the hypotheses hold and the model runs over `Rat`: f x = x − 1/3 on [0,1], ε = 1/100, n0 = 8, k1 = 1/5
+example : itpNmax (0 : Rat) 1 (1 / 100) 8 = 8 := by decide +kernel
+example : (1 : Rat) - 0 ≤ 2 * (1 / 100 * 2 ^ itpNmax (0 : Rat) 1 (1 / 100) 8) := by decide +kernel
+example : |solveItp (fun x : Rat => x - 1 / 3) 0 1 (1 / 100) 8 (1 / 5) (-1 / 3) (2 / 3) - 1 / 3| ≤ 1 / 100 := by
+  decide +kernel
+
+end Kurbo
+
+namespace Kurbo
+section real
+variable [Scalar ℝ] [LawfulScalar ℝ] [LawfulRealLog]
+
+/-- over ℝ, with the laws of `log2` and `as usize` (`LawfulRealLog`), the budget hypothesis of `solveItp_spec` holds -/
+theorem solveItp_budget_real (a b ε : ℝ) (n0 : Nat) (hab : a < b) (hε : 0 < ε) :
+    b - a ≤ 2 * (ε * 2 ^ itpNmax a b ε n0) :=
+  itpNmax_ok a b ε n0 hab hε
+
+/-- continuous `f` with `f a < 0 < f b`: the result lies in `[a, b]` and within `ε` of a zero of `f` -/
+theorem solveItp_spec_real (f : ℝ → ℝ) (a b ε : ℝ) (n0 : Nat) (k1 : ℝ) (hab : a < b) (hε : 0 < ε) (hk : 0 ≤ k1)
+    (ha : f a < 0) (hb : 0 < f b) (hf : ContinuousOn f (Set.Icc a b)) :
+    solveItp f a b ε n0 k1 (f a) (f b) ∈ Set.Icc a b ∧
+    ∃ z ∈ Set.Icc a b, f z = 0 ∧ |solveItp f a b ε n0 k1 (f a) (f b) - z| ≤ ε :=
+  ⟨solveItp_in_bracket f a b ε n0 k1 hab.le hε.le hk ha hb,
+   (solveItp_spec f a b ε n0 k1 hab.le hk ha hb (itpNmax_ok a b ε n0 hab hε)).exists_zero_near hε.le hf⟩
+
+/-- monotone `f` (not necessarily continuous): within `ε` of every zero of `f`, or itself an exact zero -/
+theorem solveItp_monotone_real (f : ℝ → ℝ) (a b ε : ℝ) (n0 : Nat) (k1 : ℝ) (hab : a < b) (hε : 0 < ε) (hk : 0 ≤ k1)
+    (ha : f a < 0) (hb : 0 < f b) (hf : MonotoneOn f (Set.Icc a b)) (z : ℝ) (hz : z ∈ Set.Icc a b) (hfz : f z = 0) :
+    f (solveItp f a b ε n0 k1 (f a) (f b)) = 0 ∨ |solveItp f a b ε n0 k1 (f a) (f b) - z| ≤ ε :=
+  solveItp_monotone f a b ε n0 k1 hab.le hk ha hb (itpNmax_ok a b ε n0 hab hε) hf z hz hfz
+
+end real
+
+-- the class assumption is satisfiable, and so are the hypotheses: f x = x³ − 2 on [0, 2]
+example : @LawfulRealLog realScalar := realScalar_lawfulRealLog
+example : (0 : ℝ) < 2 ∧ (0 : ℝ) < 1 / 100 ∧ (0 : ℝ) ≤ 1 / 5 ∧ (fun x : ℝ => x ^ 3 - 2) 0 < 0 ∧
+    0 < (fun x : ℝ => x ^ 3 - 2) 2 ∧ ContinuousOn (fun x : ℝ => x ^ 3 - 2) (Set.Icc 0 2) :=
+  ⟨by norm_num, by norm_num, by norm_num, by norm_num, by norm_num, by fun_prop⟩
 end Kurbo
